@@ -32,6 +32,7 @@ func rulesPersistGuard(c *Ctx, r *Report) {
 		"(*lib/store/base.localFileEntry).Move":           "source directory after successful rename",
 		"(*lib/store/base.localFileEntry).Create":         "cleanup of a file it has just created",
 		"(*lib/store/base.localFileEntry).DeleteMetadata": "single metadata sidecar",
+		"lib/store/base.writeFileAtomic":                  "its own temporary file after a failed write/rename",
 		"lib/store.newUploadStore":                        "upload directory wiped at start-up (nothing in it is committed)",
 		"lib/store.createOrUpdateSymlink":                 "symlink refresh",
 	}
@@ -58,6 +59,9 @@ func rulesPersistGuard(c *Ctx, r *Report) {
 				}
 			}
 			r.Check(okm, r1, fn, "Move: remove source", cs.Instr, "after successful rename", "Move removes the source directory although the data rename did not (provably) succeed")
+		case strings.HasSuffix(top, ".writeFileAtomic"):
+			r.Check(mentionsCall(cs.Instr.Common().Args[0], "os.CreateTemp"), r1, fn, "temp cleanup", cs.Instr, "removes only the temporary file it created",
+				"the atomic writer removes a path that is not the temporary file it created")
 		case strings.HasSuffix(top, "localFileEntry).Create"):
 			okc := false
 			for _, cr := range callsInNamed(fn, "os.Create") {
